@@ -18,11 +18,12 @@ CHECK = {
     "harness": ["actor/zz_verif_c33.go"],
     "entries": [
         {"fn": P + "vC33_dedup"},
+        {"fn": P + "vC33_finish", "replay": "model-only", "opts": {"substitute": {"(*" + P + "actorSystem).reportAbortedRelocation": P + "vC33_reportAborted"}}},
         {"fn": P + "vC33_batches", "cases": {"actors": [0, 2, 3], "grains": [0, 1, 3], "sent": [0, 1, 3]}, "cover_optional": ("some-sent-some-unsent",)},
         {"fn": P + "vC33_relocator5", "tiers": ("quick",), "replay": "model-only", "opts": {"substitute": RELOCATOR_SUBST, "stub": [M + "supervisor.NewSupervisor"]}},
         {"fn": P + "vC33_relocator6", "tiers": ("thorough",), "replay": "model-only", "opts": {"substitute": RELOCATOR_SUBST, "stub": [M + "supervisor.NewSupervisor"]}},
-        {"fn": P + "vC33_share", "replay": "model-only", "opts": {"substitute": SHARE_SUBST, "feas_from_iter": 1, "feasibility": "light", "unwind": 6, "loop_bounds": {P + "vC33_share": 16}}, "cases_quick": {"shape": [10, 1]}, "cases_thorough": {"shape": [10, 1, 11, 20, 2]},
-         "cover_optional": ("actor-lost", "actor-taken-by-leader", "actor-delivered", "lazy-grain-released")},
+        {"fn": P + "vC33_share", "replay": "model-only", "opts": {"substitute": SHARE_SUBST, "feas_from_iter": 1, "feasibility": "light", "unwind": 6, "loop_bounds": {P + "vC33_share": 16}}, "cases_quick": {"shape": [10, 1, 120]}, "cases_thorough": {"shape": [10, 1, 11, 20, 2, 120, 102]},
+         "cover_optional": ("actor-lost", "actor-taken-by-leader", "actor-delivered", "lazy-grain-released", "two-survivors-unreachable")},
     ],
     # substituted / irrelevant functions are not traversed by vdump (keeps the IR small)
     "stop": ["(*" + M + "internal/remoteclient.client).RelocateBatch", "(*" + P + "ReceiveContext).Spawn", "(*" + P + "ReceiveContext).Watch", "(*" + P + "ReceiveContext).Tell",
